@@ -79,6 +79,13 @@ class GParser:
         sub = Ctx(s.eng, module, None, f"{module}.<lambda@{spec['line']}>", parent=ctx)
         saved = st.locals; st.locals = dict(zip([a.arg for a in lam.args.args], argvals))
         outs = []
+        if isinstance(lam, ast.FunctionDef):       # a named function given to Computed / ExprAdapter
+            for st1, flow, val in s.eng.exec_block(lam.body, st, sub):
+                st1.locals = dict(saved)
+                if flow in (NORMAL, RETURN): outs.append((st1, val if flow == RETURN else None))
+                elif flow == RAISE: outs.append((st1, val))
+                else: raise Unsupported(f"flow {flow} out of {lam.name}")
+            return outs
         for st1, v in s.eng.eval(lam.body, st, sub):
             st1.locals = dict(saved); outs.append((st1, v))
         return outs
@@ -299,7 +306,7 @@ def lambda_finder(eng, modules):
     for m in modules:
         path = os.path.realpath(eng.paths[m])
         for n in ast.walk(eng.trees[m]):
-            if isinstance(n, ast.Lambda): index.setdefault((path, n.lineno, tuple(a.arg for a in n.args.args)), []).append((n, m))
+            if isinstance(n, (ast.Lambda, ast.FunctionDef)): index.setdefault((path, n.lineno, tuple(a.arg for a in n.args.args)), []).append((n, m))
     by_base = {}
     for (path, line, args), v in index.items(): by_base.setdefault((os.path.basename(path), line, args), []).extend(v)
     def find(file, line, args):
